@@ -1,4 +1,5 @@
 import OcVerif.Model.Selector
+import OcVerif.Model.LoopTurn
 /-!
 # C20 — readiness wakes exactly the waiting coroutine, promptly
 
@@ -110,5 +111,45 @@ theorem C20_armed_write_reported (s : St) (f fd : Fd) (e : KEnt) (ha : has s.arm
 -- the history of the seeded change that kept a stale write record after an event carrying both
 -- flags: read wait, write wait, readable edge (both flags), write wait again → woken again
 example : (writableToks (addWrite (readyRead (addWrite (addRead {} 5 111).1 5 111).1 5).1 5 111).1 5) = [111] := by decide
+
+/-! ## the loop thread's turn: the poll happens on every turn -/
+section Turn
+open Oc.LoopTurn
+
+/-- Whatever the scheduling part of a turn did — whichever coroutines stayed ready, whichever parked,
+whether or not the slice was used up — every coroutine that is parked in a wait on a descriptor the
+kernel reports ready is in the ready queue when the turn ends, and exactly those leave the waiters. -/
+theorem C20_turn_wakes_ready_waiters (l : Loop) (stay : List Nat) (parks : List (Nat × Nat)) (usedUp : Bool)
+    (readyFds : List Nat) (fd co : Nat) (hw : (fd, co) ∈ l.waiting ++ parks) (hr : fd ∈ readyFds) :
+    co ∈ (turn l stay parks usedUp readyFds).ready ∧ (fd, co) ∉ (turn l stay parks usedUp readyFds).waiting := by
+  unfold turn
+  simp only [Bool.false_and, Bool.false_eq_true, if_false]
+  unfold poll
+  constructor
+  · apply List.mem_append_right
+    rw [List.mem_map]
+    exact ⟨(fd, co), by rw [List.mem_filter]; exact ⟨hw, by simpa using hr⟩, rfl⟩
+  · rw [List.mem_filter]
+    intro h
+    have := h.2
+    simp [hr] at this
+
+/-- …and a waiter whose descriptor is not ready stays parked: the poll wakes nobody else. -/
+theorem C20_turn_wakes_only_ready (l : Loop) (stay : List Nat) (parks : List (Nat × Nat)) (usedUp : Bool)
+    (readyFds : List Nat) (fd co : Nat) (hw : (fd, co) ∈ l.waiting ++ parks) (hr : fd ∉ readyFds) :
+    (fd, co) ∈ (turn l stay parks usedUp readyFds).waiting := by
+  unfold turn
+  simp only [Bool.false_and, Bool.false_eq_true, if_false]
+  unfold poll
+  rw [List.mem_filter]
+  exact ⟨hw, by simpa using hr⟩
+
+/-- A loop that saves the zero-timeout poll whenever the slice was used up leaves the waiter parked
+for as long as some other coroutine keeps the ready queue busy (seeded change C20b). -/
+theorem C20_turn_skipping_poll_counterexample :
+    (turn { waiting := [(7, 1)] } [2] [] true [7] (skipWhenUsedUp := true)).waiting = [(7, 1)] ∧
+    (turn { waiting := [(7, 1)] } [2] [] true [7]).ready = [2, 1] := by decide
+
+end Turn
 
 end Oc.Props.C20
